@@ -27,7 +27,7 @@ RS = "resources::resource_storage::"
 
 
 def check(run):
-    for cfg in ("A", "B"):
+    for cfg in run.cfgs("A", "B"):
         F = run.facts(cfg)
         run.guard("C18.1.permission-formula", cfg, lambda: rule_formula(run, F, cfg))
         run.guard("C18.2.gate-provenance", cfg, lambda: rule_gate(run, F, cfg))
